@@ -33,6 +33,7 @@ var goTypes = map[string]reflect.Type{
 	"*time":     reflect.TypeOf((*time.Time)(nil)),
 	"NullInt64": reflect.TypeOf(sql.NullInt64{}), "NullString": reflect.TypeOf(sql.NullString{}), "NullBool": reflect.TypeOf(sql.NullBool{}),
 	"NullTime": reflect.TypeOf(sql.NullTime{}), "NullFloat64": reflect.TypeOf(sql.NullFloat64{}), "NullInt32": reflect.TypeOf(sql.NullInt32{}),
+	"Price": reflect.TypeOf(Price(0)), "*Price": reflect.TypeOf((*Price)(nil)), "Code": reflect.TypeOf(Code("")), "CSV": reflect.TypeOf(CSV{}), "KV": reflect.TypeOf(KV{}),
 	"Level": reflect.TypeOf(Level(0)), "Tag": reflect.TypeOf(Tag{}), "Cents": reflect.TypeOf(Cents{}), "*Tag": reflect.TypeOf((*Tag)(nil)),
 	"[]string": reflect.TypeOf([]string(nil)), "map[string]int64": reflect.TypeOf(map[string]int64(nil)),
 	"Payload": reflect.TypeOf(Payload{}), "*Payload": reflect.TypeOf((*Payload)(nil)), "map[string]string": reflect.TypeOf(map[string]string(nil)),
@@ -73,7 +74,7 @@ var fieldPool = []struct {
 	{"*bool", []string{""}}, {"*float64", []string{""}}, {"*time", []string{"", "autoCreateTime", "autoUpdateTime"}}, {"*time", []string{"autoCreateTime", "autoUpdateTime"}},
 	{"NullInt64", []string{""}}, {"NullString", []string{""}}, {"NullBool", []string{""}}, {"NullTime", []string{""}},
 	{"NullFloat64", []string{""}}, {"NullInt32", []string{""}},
-	{"Level", []string{""}}, {"Tag", []string{""}}, {"Cents", []string{""}}, {"*Tag", []string{""}},
+	{"Level", []string{""}}, {"Price", []string{""}}, {"*Price", []string{""}}, {"Code", []string{""}}, {"CSV", []string{""}}, {"KV", []string{""}}, {"Tag", []string{""}}, {"Cents", []string{""}}, {"*Tag", []string{""}},
 	{"[]string", []string{"serializer:json"}}, {"map[string]int64", []string{"serializer:json"}}, {"Payload", []string{"serializer:json", "serializer:gob"}},
 	{"*Payload", []string{"serializer:json"}}, {"map[string]string", []string{"serializer:gob"}},
 	{"Dims", []string{"embedded;embeddedPrefix:{c}_"}}, {"*Flags", []string{"embedded;embeddedPrefix:{c}_"}},
